@@ -146,6 +146,7 @@ def first_diff(a, b, path=''):
 
 
 def run(ctx, build):
+    model_correspondence(ctx)
     from nobodd.fs import FatFileSystem
     R = ctx.runner('Fat')
     rng = ctx.rng
@@ -276,6 +277,18 @@ def seek_read_script(ctx, rng, fs, path, content, info):
                 if a != e:
                     ctx.violation('fs.read/seek-read', f'{op} on {path!r} (buffering={buffering}) returned {str(a)[:40]} but in-memory content gives {str(e)[:40]}', info)
                     return
+
+
+def model_correspondence(ctx):
+    """differential runs of the extracted Coq models of this property's cores against the real classes"""
+    import fat_table_corr
+    fat_table_corr.run(ctx)
+    SPEC['theorems'].update(getattr(fat_table_corr, 'SPEC_THEOREMS', {}))
+    SPEC['trusted_base'].extend(x for x in getattr(fat_table_corr, 'TRUSTED', []) if x not in SPEC['trusted_base'])
+    import fat_read_corr
+    fat_read_corr.run(ctx)
+    SPEC['theorems'].update(getattr(fat_read_corr, 'SPEC_THEOREMS', {}))
+    SPEC['trusted_base'].extend(x for x in getattr(fat_read_corr, 'TRUSTED', []) if x not in SPEC['trusted_base'])
 
 
 def replay(ctx, obj):
